@@ -215,11 +215,12 @@ PROPS.update({
         "assumptions": ["sample rate 0 is accepted by the code and by the model (the property does not list it); the supported widths are 8/12/16/20/24"],
     },
     "C18": {
-        "theorem_modules": ["FlacVerif.Theorems.C18", "FlacVerif.Theorems.C18Parse"],
+        "theorem_modules": ["FlacVerif.Theorems.C18", "FlacVerif.Theorems.C18Parse", "FlacVerif.Theorems.C18Gen"], "uses_gen": ["constants", "headers", "writer", "verify"],
         "streams": {"quick": [("comp", ["--cases", 150])], "thorough": [("comp", ["--cases", 4000])], "search": [("comp", ["--cases", 1500])]},
         "profiles": {"quick": ["release", "dev"], "thorough": ["release", "dev"]},
         "diff_prefix": ["c18.", "c08.count", "c08.len8", "c08.len64"], "oracle_fields": ["o_c18"], "rule": COMP_RULE,
-        "trusted_base": ["Model/Verify.lean: decision mirrors of the public constructors and verify impls, tied to datatype.rs / verify.rs by the comp stream (accept/reject on the whole grid, both profiles)",
+        "trusted_base": ["Model/Verify.lean: decision mirrors of the public constructors and verify impls, tied to datatype.rs / verify.rs by Theorems/C18Gen.lean (the source text is parsed by translator part `verify` into Gen/Verify.lean, macros expanded from their macro_rules! definitions; equality with the hand model is proved for every argument value) and by the comp stream (accept/reject on the whole grid, both profiles)",
+                         "translator part `verify`: accessor table WR_MODEL, VF_CTORS (Residual::from_parts, QuantizedParameters::from_parts), VF_PART, and the readings of std/heapless functions listed at the end of Gen/Verify.lean",
                          "parse-back of accepted components is decided by the real parser on every accepted case (the parser mirror and its round-trip theorems belong to C15)"],
         "assumptions": ["typed slice arguments (&[u8], &[u32], &[i16]) hold values of their element type; FrameOffset::Frame carries a u32"],
     },
@@ -369,7 +370,7 @@ PROPS.update({
     "C16": {
         "theorem_modules": ["FlacVerif.Theorems.C16crc", "FlacVerif.Theorems.C16", "FlacVerif.Theorems.C02Gen", "FlacVerif.Theorems.C02Hdr"], "uses_gen": ["tables", "headers"],
         "streams": {"quick": [("parser", ["--cases", 14, "--burst-stride", 40, "--random", 1500])],
-                    "thorough": [("parser", ["--cases", 40, "--burst-stride", 1, "--random", 200000])],
+                    "thorough": [("parser", ["--cases", 30, "--burst-stride", 3, "--random", 60000])],
                     "search": [("parser", ["--cases", 30, "--burst-stride", 4, "--random", 20000])]},
         "profiles": {"quick": ["release", "dev"], "thorough": ["release", "dev"]},
         "diff_prefix": ["c16."], "oracle_fields": ["o_c16"], "rule": PARSER_RULE,
